@@ -615,10 +615,11 @@ partial def parsePorts : P (List Port) := do
       | "in" => pure Dir.input | "out" => pure Dir.output | "inout" => pure Dir.inout
       | _ => fail s!"unsupported port mode '{d}'")
     let ty ← parseType
-    if ← acceptSym ";" then go ({ name := n, dir, ty } :: acc)
+    let init ← (do if ← acceptSym ":=" then pure (some (← parseExpr)) else pure none)
+    if ← acceptSym ";" then go ({ name := n, dir, ty, init } :: acc)
     else
       expectSym ")"; expectSym ";"
-      return ({ name := n, dir, ty : Port } :: acc).reverse
+      return ({ name := n, dir, ty, init : Port } :: acc).reverse
   go []
 
 structure RawUnits where
